@@ -1,6 +1,10 @@
 package api
 
-import "net/http"
+import (
+	"net/http"
+
+	"github.com/safing/portbase/config"
+)
 
 var verifSimInitDone bool
 
@@ -12,6 +16,21 @@ func VerifSimInit() error {
 	verifSimInitDone = true
 	defaultListenAddress = "127.0.0.1:817"
 	return registerConfig()
+}
+
+// VerifSimResetPackage re-evaluates the package-level initialisers (so that nothing a run left in a package
+// variable reaches the next run in the same process) and restores what VerifSimInit set up.
+func VerifSimResetPackage() {
+	done := verifSimInitDone
+	VerifSimReinit()
+	verifSimInitDone = done
+	if done {
+		// what registerConfig assigned (the options themselves live in package config)
+		defaultListenAddress = "127.0.0.1:817"
+		listenAddressConfig = config.GetAsString(CfgDefaultListenAddressKey, getDefaultListenAddress())
+		configuredAPIKeys = config.GetAsStringArray(CfgAPIKeys, []string{})
+		devMode = config.Concurrent.GetAsBool(config.CfgDevModeKey, false)
+	}
 }
 
 // VerifSimResetRun clears credentials state between runs.
